@@ -96,6 +96,26 @@ def impl(case):
     args2 = tuple(to_py(a, futs2) for a in case["args"])
     kwargs2 = {"k%d" % k: to_py(a, futs2) for k, a in case["kwargs"]}
     a3, k3 = _update_futures_in_input(args2, kwargs2)
+    # the same call forwarded through the wait list must reach the inner executor identically
+    # (same container types: the cache key is computed from what is forwarded)
+    import queue as _q
+    from executorlib.interactive.shared import _submit_waiting_task
+    futs3 = [Future() for _ in range(n)]
+    for j in range(n):
+        futs3[j].set_result(to_py(case["results"][j], futs3))
+    args3 = tuple(to_py(a, futs3) for a in case["args"])
+    kwargs3 = {"k%d" % k: to_py(a, futs3) for k, a in case["kwargs"]}
+    fl, _ = _get_future_objects_from_input({"args": args3, "kwargs": kwargs3})
+    q = _q.Queue()
+    left = _submit_waiting_task(wait_lst=[{"fn": len, "args": args3, "kwargs": kwargs3, "future": Future(), "future_lst": fl,
+                                           "resource_dict": {}}], executor_queue=q)
+    fw = q.get_nowait() if not q.empty() else None
+    ready = (type(a3).__name__, [show_targ(from_py(x, futs2)) for x in a3], type(k3).__name__,
+             [(k, show_targ(from_py(v, futs2))) for k, v in k3.items()])
+    waited = None if fw is None else (type(fw["args"]).__name__, [show_targ(from_py(x, futs3)) for x in fw["args"]],
+                                      type(fw["kwargs"]).__name__, [(k, show_targ(from_py(v, futs3))) for k, v in fw["kwargs"].items()])
+    if left or waited != ready:
+        return "WAIT-PATH-DIFFERS ready=%r waited=%r left=%d" % (ready, waited, len(left))
     return "%s|%s|%s|%s" % (",".join(str(j) for j in found_ids), "T" if flag else "F",
                             ";".join(show_targ(from_py(x, futs2)) for x in a3),
                             ";".join("%s=%s" % (k, show_targ(from_py(v, futs2))) for k, v in k3.items()))
